@@ -566,3 +566,63 @@ func c03recoveryNames(c *an.Ctx) {
 		r.Fail(f.Name+": predicates", c.P.Pos(f.Body.Pos()), "expected the two existence predicates newFileExist and oldFileExist, found %d", found)
 	}
 }
+
+func init() {
+	old := All["C03"].Run
+	All["C03"].Run = func(c *an.Ctx) {
+		old(c)
+		c03schemaFromEveryReader(c)
+	}
+	All["C03"].Rules += " R10"
+	addLevel("C03", "the per-series schema of the out-of-order data is rebuilt from every out-of-order file for each (series, time bound) it is asked for: it depends on the bound, a remembered result of an earlier bound hides columns of files that only hold later rows.")
+}
+
+// c03schemaFromEveryReader — C03.R10.
+func c03schemaFromEveryReader(c *an.Ctx) {
+	const I = "engine/immutable"
+	r := c.Rule("C03.R10", "K-ORDER", I+":(*UnorderedReader).ReadSeriesSchemas — a non-nil schema is returned only after every out-of-order file was asked for its columns up to the bound")
+	f := fn(r, I+":UnorderedReader.ReadSeriesSchemas")
+	if f == nil {
+		return
+	}
+	rd := f.Find(call(r, I+":UnorderedColumnReader.ReadSchemas"))
+	// (the loop over the files, as a site: with no files there is nothing to ask and nothing to return)
+	walk := f.Find(an.MNode("the loop over the out-of-order files", func(g *an.Fn, m ast.Node) bool {
+		e, ok := m.(ast.Expr)
+		if !ok {
+			return false
+		}
+		rs, ok := g.Parent(m).(*ast.RangeStmt)
+		if !ok || rs.X != e {
+			return false
+		}
+		has := false
+		ast.Inspect(rs.Body, func(k ast.Node) bool {
+			if ce, ok := k.(*ast.CallExpr); ok {
+				if cal := an.Callee(g.Info, ce); cal != nil && cal.Name() == "ReadSchemas" {
+					has = true
+				}
+			}
+			return true
+		})
+		return has
+	}))
+	ret := f.Find(an.MReturn("of a schema", func(g *an.Fn, rs *ast.ReturnStmt) bool {
+		return len(rs.Results) == 1 && !an.IsNilIdent(g.Info, rs.Results[0])
+	}))
+	if r.Failed() {
+		return
+	}
+	if rd.Len() == 0 || ret.Len() == 0 {
+		r.Fail(f.Name+": shape", c.P.Pos(f.Body.Pos()), "expected the per-file ReadSchemas calls and the return of the schema (found %d / %d)", rd.Len(), ret.Len())
+		return
+	}
+	if walk.Len() == 0 {
+		r.Fail(f.Name+": loop", c.P.Pos(f.Body.Pos()), "the loop over the out-of-order files that calls ReadSchemas was not found")
+		return
+	}
+	f.Precedes(r, walk, ret, an.OrderOpt{Label: "ReadSchemas of the files ≺ return of the schema (no remembered result)"})
+	for _, s := range rd.List {
+		f.LoopNoBreak(r, s, "every out-of-order file is asked")
+	}
+}
